@@ -666,6 +666,7 @@ bus_driver_handle_list_services (DBusConnection *connection,
     if (!dbus_message_iter_append_basic (&sub, DBUS_TYPE_STRING,
                                          &v_STRING))
       {
+        dbus_message_iter_abandon_container (&iter, &sub);
         dbus_free_string_array (services);
         dbus_message_unref (reply);
         BUS_SET_OOM (error);
@@ -679,6 +680,7 @@ bus_driver_handle_list_services (DBusConnection *connection,
       if (!dbus_message_iter_append_basic (&sub, DBUS_TYPE_STRING,
                                            &services[i]))
         {
+          dbus_message_iter_abandon_container (&iter, &sub);
           dbus_free_string_array (services);
           dbus_message_unref (reply);
           BUS_SET_OOM (error);
@@ -759,6 +761,7 @@ bus_driver_handle_list_activatable_services (DBusConnection *connection,
     if (!dbus_message_iter_append_basic (&sub, DBUS_TYPE_STRING,
 					 &v_STRING))
       {
+	dbus_message_iter_abandon_container (&iter, &sub);
 	dbus_free_string_array (services);
 	dbus_message_unref (reply);
 	BUS_SET_OOM (error);
@@ -772,6 +775,7 @@ bus_driver_handle_list_activatable_services (DBusConnection *connection,
       if (!dbus_message_iter_append_basic (&sub, DBUS_TYPE_STRING,
 					   &services[i]))
 	{
+	  dbus_message_iter_abandon_container (&iter, &sub);
 	  dbus_free_string_array (services);
 	  dbus_message_unref (reply);
 	  BUS_SET_OOM (error);
@@ -1596,7 +1600,8 @@ bus_driver_handle_list_queued_owners (DBusConnection *connection,
   BusRegistry *registry;
   BusService *service;
   DBusMessage *reply;
-  DBusMessageIter iter, array_iter;
+  DBusMessageIter iter;
+  DBusMessageIter array_iter = DBUS_MESSAGE_ITER_INIT_CLOSED;
 
   _DBUS_ASSERT_ERROR_IS_CLEAR (error);
 
@@ -1683,7 +1688,10 @@ bus_driver_handle_list_queued_owners (DBusConnection *connection,
  failed:
   _DBUS_ASSERT_ERROR_IS_SET (error);
   if (reply)
-    dbus_message_unref (reply);
+    {
+      dbus_message_iter_abandon_container_if_open (&iter, &array_iter);
+      dbus_message_unref (reply);
+    }
 
   if (base_names)
     _dbus_list_clear (&base_names);
